@@ -85,6 +85,8 @@ class Trace:
         self.n_cmp = 0
         self.index_error: Optional[str] = None
         self.halted = False
+        self.accepted: List[Lin] = []           # values of the accepted acceptance tests, in order
+        self.free: List[Dict[str, Any]] = []    # comparisons between cost-dependent values whose outcome is not forced
 
 
 class BioSim:
@@ -98,22 +100,29 @@ class BioSim:
             if target.startswith("numpy."):
                 self.np_names[local] = target.split(".", 1)[1]
 
-    def simulate(self, r0: List[int], accept_at: Optional[int] = None, max_events: int = 4000) -> Trace:
+    def simulate(self, r0: List[int], accept_at=None, max_events: int = 4000, free_choice: bool = False) -> Trace:
+        """accept_at: None, the index of the one acceptance test that succeeds, or a tuple of such indices.
+        free_choice: outcome given to comparisons between cost-dependent values that the signs of the accepted gains do
+        not force (see _relative_compare)."""
         tr = Trace()
         stack: List[str] = []
         r = list(r0)
         n = len(r)
+        accept = set() if accept_at is None else ({accept_at} if isinstance(accept_at, int) else set(accept_at))
 
         def sym_compare(left, op, right, node):
             if not right.is_const():
-                raise Unsupported("acceptance test against a non-constant", node)
+                return _relative_compare(tr, left, op, right, node, free_choice, stack[-1] if stack else "?")
             idx = tr.n_cmp
             tr.n_cmp += 1
             tr.events.append({"kind": "cmp", "lin": left, "op": type(op).__name__, "const": right.const,
                               "where": stack[-1] if stack else "?", "idx": idx, "line": getattr(node, "lineno", 0)})
             if len(tr.events) > max_events:
                 raise Halt()
-            return accept_at is not None and idx == accept_at
+            if idx in accept:
+                tr.accepted.append(left)
+                return True
+            return False
 
         def mk_inline(name):
             f = self.fn[name]
@@ -180,6 +189,66 @@ class BioSim:
                                 f"while evaluating the local search on {r0}: {exc}")
         tr.final = list(r)
         return tr
+
+
+def _solve_combination(target: Lin, basis: List[Lin], tol: float = 1e-9):
+    """Coefficients c with sum c[i] * basis[i] == target (floating point, relative tolerance), or None."""
+    syms = sorted({s_ for b in basis + [target] for s_ in b.terms}, key=repr)
+    rows = [[float(b.terms.get(s_, 0)) for b in basis] + [float(target.terms.get(s_, 0))] for s_ in syms]
+    rows.append([float(b.const) for b in basis] + [float(target.const)])
+    scale = max([abs(x) for r_ in rows for x in r_] + [1.0])
+    k = len(basis)
+    piv_cols = []
+    rr = 0
+    for c in range(k):
+        p = max(range(rr, len(rows)), key=lambda i: abs(rows[i][c]), default=None)
+        if p is None or abs(rows[p][c]) <= tol * scale:
+            continue
+        rows[rr], rows[p] = rows[p], rows[rr]
+        pv = rows[rr][c]
+        rows[rr] = [x / pv for x in rows[rr]]
+        for i in range(len(rows)):
+            if i != rr and rows[i][c] != 0:
+                f_ = rows[i][c]
+                rows[i] = [x - f_ * y for x, y in zip(rows[i], rows[rr])]
+        piv_cols.append(c)
+        rr += 1
+    for i in range(rr, len(rows)):
+        if abs(rows[i][k]) > 1e-7 * scale:
+            return None
+    coef = [0.0] * k
+    for i, c in enumerate(piv_cols):
+        coef[c] = rows[i][k] if abs(rows[i][k]) > 1e-12 else 0.0
+    return coef
+
+
+def _relative_compare(tr: "Trace", left, op, right, node, free_choice: bool, where: str):
+    """`left op right` where both sides depend on the costs (e.g. a gain compared with a fraction of the total gain).
+    The difference is written as a combination of the accepted gains g_1..g_k, each of which is negative (accepted tests
+    are `g < c`, c < 0 - rule L3). If all coefficients have the same sign the outcome is forced; otherwise both outcomes
+    are possible for suitable magnitudes of the gains and the simulation follows `free_choice`, recording the event."""
+    import ast as _ast
+    d = Lin.of(left) - Lin.of(right)
+    coef = _solve_combination(d, [Lin.of(a) for a in tr.accepted])
+    if coef is None:
+        raise Unsupported("comparison between cost-dependent values that is not a combination of the accepted gains", node)
+    pos = any(c > 0 for c in coef)
+    neg = any(c < 0 for c in coef)
+    name = type(op).__name__
+    if not pos and not neg:
+        sign = 0
+    elif pos and not neg:
+        sign = -1           # positive multiples of negative gains
+    elif neg and not pos:
+        sign = 1
+    else:
+        tr.free.append({"line": getattr(node, "lineno", 0), "where": where, "coef": [float(c) for c in coef],
+                        "op": name, "outcome": free_choice, "text": ""})
+        return free_choice
+    table = {"Lt": sign < 0, "LtE": sign <= 0, "Gt": sign > 0, "GtE": sign >= 0, "Eq": sign == 0, "NotEq": sign != 0}
+    if name not in table:
+        raise Unsupported(f"comparison operator {name} between cost-dependent values", node)
+    return table[name]
 
 
 def sweep_signature(events: List[Dict[str, Any]]) -> List[Tuple]:
